@@ -1,23 +1,31 @@
 """Abstract programs over what C3 and C share, with two renderers and a direct evaluator (DESIGN.md 3.3, C37).
+(vf/genc3.py is a different module: C28's generator of C3 source text.)
 
 A program is plain JSON:
 
 program = {
-  "alias":   {"i32": "int" | "int32_t", "u8": "byte" | "uint8_t"},     spelling of the two aliased C3 types
-  "structs": [{"name": "S0", "fields": [[fname, scalar type], ...]}],
-  "consts":  [{"name": "K0", "ty": "i32" | "u8", "val": int}],
-  "globals": [{"name": "g0", "ty": TYPE, "init": None | int | [leaf ints in layout order]}],
+  "alias":   {scalar type: C3 spelling}     "int"/"int32_t", "byte"/"uint8_t", or the name of a typedef below
+  "typedefs": [[name, scalar type], ...]    C3 `type uint16_t T0;`
+  "structs": [{"name": "S0", "fields": [[fname, scalar | ["arr", scalar, n] | ["struct", earlier struct]], ...]}],
+  "consts":  [{"name": "K0", "ty": "i32" | "u8", "val": KEXPR}],
+             KEXPR = int (>= 0) | ["k", earlier const] | ["kbin", "+" | "-" | "*" | "/" | "%", KEXPR, KEXPR]
+                     | ["b", 0 | 1] (`false` / `true`, only as the initialiser of a bool global)
+             (constant expressions have the meaning of the same run-time `int` expression: `/` truncates, `%` takes
+             the sign of the dividend; the value is then converted to the const's type)
+  "globals": [{"name": "g0", "ty": TYPE, "init": None | [KEXPR per scalar leaf, in layout order]}],
   "funcs":   [{"name": "f0", "ret": scalar type | "void", "params": [[name, TYPE], ...], "pure": bool, "body": [STMT...]}],
 }
-TYPE  = "i8" "u8" "i16" "u16" "i32" "u32" "i64" "u64" "bool" | ["arr", TYPE, n] | ["struct", name] | ["ptr", TYPE]
+TYPE  = "i8" "u8" "i16" "u16" "i32" "u32" "i64" "u64" "bool" | ["arr", TYPE, n] | ["arr", TYPE, n, const name]
+        (the C3 text gives the size by that const, whose value is n) | ["struct", name] | ["ptr", TYPE]
 LVAL  = ["var", T, name] | ["idx", T, LVAL(array), EXPR(i32)] | ["fld", T, LVAL(struct), fname] | ["deref", T, EXPR(ptr)]
 EXPR  = LVAL (load) | ["lit", T, v] (|v| < 2^31: an `int` literal, cast to T) | ["blit", "bool", 0|1] | ["const", T, name]
+      | ["sizeof", "i32", TYPE (scalar, pointer or array of scalars)]
       | ["un", T, "-"|"+", e] | ["bin", T, op, a, b] (a, b of type T) | ["cast", T, e, implicit] | ["addr", ["ptr", T], LVAL]
       | ["cmp", "bool", op, a, b] | ["and", "bool", a, b] | ["or", "bool", a, b] | ["not", "bool", a] | ["call", T, fname, [args]]
-STMT  = ["decl", name, TYPE, init]      init: EXPR | [EXPR...] (array, in order) | [EXPR...] (struct, field order)
+STMT  = ["decl", name, TYPE, init]      init: EXPR (scalar, pointer) | [init...] (array elements / struct fields in order)
       | ["assign", LVAL, "=" | "+=" | "-=" | "*=" | "|=" | "&=", EXPR]
       | ["if", cond, [STMT...], [STMT...]] | ["while", cond, [STMT...]] | ["for", STMT(assign), cond, STMT(assign), [STMT...]]
-      | ["switch", EXPR(i32), [[int | const name | None (default), [STMT...]], ...]]
+      | ["switch", EXPR(i32), [[int | const name | KEXPR | None (default), [STMT...]], ...]]
       | ["ret", EXPR | None] | ["callstmt", fname, [args]]
 
 Meaning (the property's "fixed-width integer arithmetic of the declared types"): every operation on type T yields
@@ -100,6 +108,99 @@ def size_of(prog, t):
     return sum(BITS[lt] // 8 for _, lt in leaves(prog, t))
 
 
+def kexpr_value(e, consts, pythonic=False):
+    """Value of a constant expression.  consts: name -> value of the earlier consts.
+    pythonic=True models Context.eval_const of the pinned tree (operator.truediv / operator.mod)."""
+    if isinstance(e, int):
+        return e
+    if e[0] == "k":
+        return consts[e[1]]
+    if e[0] == "b":
+        return e[1]
+    a = kexpr_value(e[2], consts, pythonic)
+    b = kexpr_value(e[3], consts, pythonic)
+    op = e[1]
+    if op == "+":
+        return a + b
+    if op == "-":
+        return a - b
+    if op == "*":
+        return a * b
+    if pythonic:
+        return a / b if op == "/" else a % b
+    q = abs(a) // abs(b)
+    if (a < 0) != (b < 0):
+        q = -q
+    return q if op == "/" else a - q * b
+
+
+def const_values(prog, pythonic=False):
+    """name -> value of every const (pythonic: as Context.eval_const computes them, possibly a float)"""
+    out = {}
+    for c in prog["consts"]:
+        v = kexpr_value(c["val"], out, pythonic)
+        if pythonic:
+            # `const byte K = e` is coerced with a cast that eval_const folds as int(v) & 0xFF; `const int` is not cast
+            out[c["name"]] = int(v) & 0xFF if c["ty"] == "u8" else v
+        else:
+            out[c["name"]] = norm(c["ty"], v)
+    return out
+
+
+def ginit_values(g):
+    init = g.get("init")
+    if init is None:
+        return None
+    return [init] if isinstance(init, int) else init
+
+
+def label_kexpr(val):
+    """case label (int | const name | KEXPR) as a KEXPR"""
+    return ["k", val] if isinstance(val, str) else val
+
+
+def kexpr_ops(e):
+    if isinstance(e, int) or e[0] in ("k", "b"):
+        return set()
+    return {e[1]} | kexpr_ops(e[2]) | kexpr_ops(e[3])
+
+
+def constant_divmod(prog):
+    """does a constant expression of the program (const, case label, global initialiser) use / or % ?"""
+    found = [False]
+
+    def visit(n):
+        if n[0] == "switch" and len(n) == 3:
+            for val, _ in n[2]:
+                if isinstance(val, list) and kexpr_ops(val) & {"/", "%"}:
+                    found[0] = True
+
+    for f in prog["funcs"]:
+        walk(f["body"], visit)
+    for c in prog["consts"]:
+        if kexpr_ops(c["val"]) & {"/", "%"}:
+            found[0] = True
+    for g in prog["globals"]:
+        for v in ginit_values(g) or []:
+            if kexpr_ops(v) & {"/", "%"}:
+                found[0] = True
+    return found[0]
+
+
+def bool_global_init(prog):
+    return any(g["ty"] == "bool" and g.get("init") is not None for g in prog["globals"])
+
+
+def kexpr_text(e, c=False):
+    if isinstance(e, int):
+        return str(e)
+    if e[0] == "k":
+        return e[1]
+    if e[0] == "b":
+        return str(e[1]) if c else ("true" if e[1] else "false")
+    return "(%s %s %s)" % (kexpr_text(e[2], c), e[1], kexpr_text(e[3], c))
+
+
 # ---------------------------------------------------------------------------
 # C3 renderer
 
@@ -116,7 +217,7 @@ class C3Renderer:
         if k == "ptr":
             return self.ty(t[1]) + "*"
         if k == "arr":
-            return "%s[%d]" % (self.ty(t[1]), t[2])
+            return "%s[%s]" % (self.ty(t[1]), t[3] if len(t) > 3 else t[2])
         return t[1]
 
     def expr(self, e):
@@ -129,6 +230,8 @@ class C3Renderer:
             return "true" if e[2] else "false"
         if k in ("const", "var"):
             return e[2]
+        if k == "sizeof":
+            return "sizeof(%s)" % self.ty(e[2])
         if k == "idx":
             return "%s[%s]" % (self.expr(e[2]), self.expr(e[3]))
         if k == "fld":
@@ -167,15 +270,7 @@ class C3Renderer:
         for s in body:
             k = s[0]
             if k == "decl":
-                t = s[2]
-                if kind(t) == "arr":
-                    init = "{%s}" % ", ".join(self.expr(x) for x in s[3])
-                elif kind(t) == "struct":
-                    fields = struct_of(self.p, t[1])["fields"]
-                    init = "{%s}" % ", ".join(".%s = %s" % (f[0], self.expr(x)) for f, x in zip(fields, s[3]))
-                else:
-                    init = self.expr(s[3])
-                out.append("%svar %s %s = %s;" % (pad, self.ty(t), s[1], init))
+                out.append("%svar %s %s = %s;" % (pad, self.ty(s[2]), s[1], self.init(s[2], s[3])))
             elif k == "assign":
                 out.append("%s%s;" % (pad, self.simple(s)))
             elif k == "if":
@@ -196,7 +291,7 @@ class C3Renderer:
             elif k == "switch":
                 out.append("%sswitch (%s) {" % (pad, self.expr(s[1])))
                 for val, blk in s[2]:
-                    out.append("%s  %s: {" % (pad, "default" if val is None else "case %s" % val))
+                    out.append("%s  %s: {" % (pad, "default" if val is None else "case %s" % kexpr_text(label_kexpr(val))))
                     self.stmts(blk, ind + 2, out)
                     out.append("%s  }" % pad)
                 out.append("%s}" % pad)
@@ -207,17 +302,27 @@ class C3Renderer:
             else:
                 raise ValueError(s)
 
+    def init(self, t, x):
+        if kind(t) == "arr":
+            return "{%s}" % ", ".join(self.init(t[1], y) for y in x)
+        if kind(t) == "struct":
+            fields = struct_of(self.p, t[1])["fields"]
+            return "{%s}" % ", ".join(".%s = %s" % (f[0], self.init(f[1], y)) for f, y in zip(fields, x))
+        return self.expr(x)
+
     def module(self):
         p = self.p
         out = ["module %s;" % MOD]
+        for name, t in p.get("typedefs") or []:
+            out.append("type %s %s;" % (C3NAME[t], name))
         for s in p["structs"]:
             out.append("type struct { %s } %s;" % (" ".join("%s %s;" % (self.ty(ft), fn) for fn, ft in s["fields"]), s["name"]))
         for c in p["consts"]:
-            out.append("const %s %s = %d;" % (self.ty(c["ty"]), c["name"], c["val"]))
+            out.append("const %s %s = %s;" % (self.ty(c["ty"]), c["name"], kexpr_text(c["val"])))
         for g in p["globals"]:
             init = ""
             if g.get("init") is not None:
-                init = " = " + self.ginit(g["ty"], g["init"] if isinstance(g["init"], list) else [g["init"]], [0])
+                init = " = " + self.ginit(g["ty"], ginit_values(g), [0])
             out.append("var %s %s%s;" % (self.ty(g["ty"]), g["name"], init))
         for f in p["funcs"]:
             params = ", ".join("%s %s" % (self.ty(t), n) for n, t in f["params"])
@@ -232,7 +337,7 @@ class C3Renderer:
         if k == "scalar":
             v = vals[pos[0]]
             pos[0] += 1
-            return str(v)
+            return kexpr_text(v)
         if k == "arr":
             return "{%s}" % ", ".join(self.ginit(t[1], vals, pos) for _ in range(t[2]))
         fields = struct_of(self.p, t[1])["fields"]
@@ -277,9 +382,12 @@ class CRenderer:
         raise ValueError(t)
 
     def declarator(self, t, name):
-        if kind(t) == "arr":
-            return "%s %s[%d]" % (self.ty(t[1]), name, t[2])
-        return "%s %s" % (self.ty(t), name)
+        # C3 `T[n][m] a` is an array of m arrays of n: C `T a[m][n]`
+        dims = ""
+        while kind(t) == "arr":
+            dims += "[%d]" % t[2]
+            t = t[1]
+        return "%s %s%s" % (self.ty(t), name, dims)
 
     def wide(self, t):
         """type in which C computes an operation on t without differing from fixed-width arithmetic"""
@@ -295,6 +403,9 @@ class CRenderer:
             return "((int32_t)%d)" % e[2]
         if k in ("const", "var"):
             return e[2]
+        if k == "sizeof":
+            t = e[2]
+            return "((int32_t)sizeof(%s))" % ("%s[%d]" % (self.ty(t[1]), t[2]) if kind(t) == "arr" else self.ty(t))
         if k == "idx":
             return "%s[%s]" % (self.expr(e[2]), self.expr(e[3]))
         if k == "fld":
@@ -344,15 +455,7 @@ class CRenderer:
         for s in body:
             k = s[0]
             if k == "decl":
-                t = s[2]
-                if kind(t) == "arr":
-                    init = "{%s}" % ", ".join(self.expr(x) for x in s[3])
-                elif kind(t) == "struct":
-                    fields = struct_of(self.p, t[1])["fields"]
-                    init = "{%s}" % ", ".join(".%s = %s" % (f[0], self.expr(x)) for f, x in zip(fields, s[3]))
-                else:
-                    init = self.expr(s[3])
-                out.append("%s%s = %s;" % (pad, self.declarator(t, s[1]), init))
+                out.append("%s%s = %s;" % (pad, self.declarator(s[2], s[1]), self.init(s[2], s[3])))
             elif k == "assign":
                 out.append("%s%s;" % (pad, self.simple(s)))
             elif k == "if":
@@ -373,7 +476,7 @@ class CRenderer:
             elif k == "switch":
                 out.append("%sswitch (%s) {" % (pad, self.expr(s[1])))
                 for val, blk in s[2]:
-                    out.append("%s  %s: {" % (pad, "default" if val is None else "case %s" % val))
+                    out.append("%s  %s: {" % (pad, "default" if val is None else "case %s" % kexpr_text(label_kexpr(val))))
                     self.stmts(blk, ind + 2, out)
                     out.append("%s  } break;" % pad)
                 out.append("%s}" % pad)
@@ -383,6 +486,14 @@ class CRenderer:
                 out.append("%s%s(%s);" % (pad, s[1], ", ".join(self.expr(a) for a in s[2])))
             else:
                 raise ValueError(s)
+
+    def init(self, t, x):
+        if kind(t) == "arr":
+            return "{%s}" % ", ".join(self.init(t[1], y) for y in x)
+        if kind(t) == "struct":
+            fields = struct_of(self.p, t[1])["fields"]
+            return "{%s}" % ", ".join(".%s = %s" % (f[0], self.init(f[1], y)) for f, y in zip(fields, x))
+        return self.expr(x)
 
     def proto(self, f):
         params = ", ".join(self.declarator(t, n) for n, t in f["params"]) or "void"
@@ -397,9 +508,10 @@ class CRenderer:
         for n in renames:
             out.append("#define %s P%s_%s" % (n, tag, n))
         for s in p["structs"]:
-            out.append("typedef struct { %s } %s;" % (" ".join("%s %s;" % (CNAME[ft], fn) for fn, ft in s["fields"]), s["name"]))
+            out.append("typedef struct { %s } %s;" % (" ".join("%s;" % self.declarator(ft, fn) for fn, ft in s["fields"]), s["name"]))
         for c in p["consts"]:
-            out.append("#define %s %s" % (c["name"], c_const(c["ty"], c["val"])))
+            # int arithmetic on non-negative literals and earlier consts; gcc folds it as an integer constant expression
+            out.append("#define %s ((%s)(%s))" % (c["name"], CNAME[c["ty"]], kexpr_text(c["val"])))
         for g in p["globals"]:
             out.append("%s;" % self.declarator(g["ty"], g["name"]))
         for f in p["funcs"]:
@@ -412,15 +524,9 @@ class CRenderer:
         out.append("static void reset_%s(void) {" % tag)
         for g in p["globals"]:
             lv = leaves(p, g["ty"], g["name"])
-            init = g.get("init")
-            if init is None:
-                vals = [0] * len(lv)
-            elif isinstance(init, list):
-                vals = init
-            else:
-                vals = [init]
+            vals = ginit_values(g) or [0] * len(lv)
             for (path, lt), v in zip(lv, vals):
-                out.append("  %s = %s;" % (path, c_const(lt, norm(lt, v))))
+                out.append("  %s = ((%s)(%s));" % (path, CNAME[lt], kexpr_text(v, True)))
         out.append("}")
         out.append("static void dump_%s(int k) {" % tag)
         out.append('  printf("G %s %%d", k);' % tag)
@@ -477,6 +583,10 @@ class UB(Exception):
         self.reason = reason
 
 
+class FloatConst(Exception):
+    """(only with a model of the pinned tree's constant folding) a const whose folded value is a float is used"""
+
+
 class _Return(Exception):
     def __init__(self, v):
         self.v = v
@@ -531,10 +641,11 @@ def compare(op, a, b):
 
 
 class Interp:
-    def __init__(self, prog, fuel=40000, max_depth=30):
+    def __init__(self, prog, fuel=40000, max_depth=30, pythonic=False):
         self.p = prog
         self.funcs = {f["name"]: f for f in prog["funcs"]}
-        self.consts = {c["name"]: norm(c["ty"], c["val"]) for c in prog["consts"]}
+        self.pythonic = pythonic  # model of the pinned tree's constant folding (see const_values)
+        self.consts = const_values(prog, pythonic)
         self.fuel0 = fuel
         self.max_depth = max_depth
         self.reset()
@@ -555,8 +666,8 @@ class Interp:
         self.globals = {}
         for g in self.p["globals"]:
             n = len(leaves(self.p, g["ty"]))
-            init = g.get("init")
-            vals = [0] * n if init is None else (init if isinstance(init, list) else [init])
+            init = ginit_values(g)
+            vals = [0] * n if init is None else [int(kexpr_value(v, self.consts, self.pythonic)) for v in init]
             self.globals[g["name"]] = self.make(g["ty"], vals, [0])
         self.steps = 0
         self.depth = 0
@@ -635,7 +746,13 @@ class Interp:
         if k == "blit":
             return e[2]
         if k == "const":
-            return self.consts[e[2]]
+            v = self.consts[e[2]]
+            if isinstance(v, float):
+                raise FloatConst(e[2])
+            return v
+        if k == "sizeof":
+            t = e[2]
+            return 8 if kind(t) == "ptr" else size_of(self.p, t)
         if k == "addr":
             return self.lval(e[2], env)
         if k == "un":
@@ -676,6 +793,16 @@ class Interp:
             v = arith(s[1][1], s[2][:-1], cell.v, v)
         cell.v = v
 
+    def init_values(self, t, x, env, out):
+        if kind(t) == "arr":
+            for y in x:
+                self.init_values(t[1], y, env, out)
+        elif kind(t) == "struct":
+            for (_, ft), y in zip(struct_of(self.p, t[1])["fields"], x):
+                self.init_values(ft, y, env, out)
+        else:
+            out.append(self.ev(x, env))
+
     def block(self, body, env):
         for s in body:
             self.tick()
@@ -685,7 +812,8 @@ class Interp:
                 if kind(t) in ("scalar", "ptr"):
                     env[s[1]] = Cell(self.ev(s[3], env))
                 else:
-                    vals = [self.ev(x, env) for x in s[3]]
+                    vals = []
+                    self.init_values(t, s[3], env, vals)
                     env[s[1]] = self.make(t, vals, [0])
             elif k == "assign":
                 self.assign(s, env)
@@ -704,7 +832,9 @@ class Interp:
                 chosen = None
                 for val, blk in s[2]:
                     if val is not None:
-                        cv = self.consts[val] if isinstance(val, str) else val
+                        cv = kexpr_value(label_kexpr(val), self.consts, self.pythonic)
+                        if isinstance(cv, float):
+                            raise FloatConst(str(val))
                         if cv == v:
                             chosen = blk
                             break
@@ -722,9 +852,9 @@ class Interp:
                 raise ValueError(s)
 
 
-def evaluate(prog, calls, fuel=40000):
-    """[(ret, [global leaf values]) | UB instance] per call, each starting from the initial globals."""
-    it = Interp(prog, fuel)
+def evaluate(prog, calls, fuel=40000, pythonic=False):
+    """[(ret, [global leaf values], steps) | UB instance | FloatConst instance] per call, each from the initial globals."""
+    it = Interp(prog, fuel, pythonic=pythonic)
     out = []
     for name, args in calls:
         it.reset()
@@ -732,6 +862,8 @@ def evaluate(prog, calls, fuel=40000):
             r = it.call(name, args)
             out.append((r, it.snapshot(), it.steps))
         except UB as u:
+            out.append(u)
+        except FloatConst as u:
             out.append(u)
         except RecursionError:
             out.append(UB("python recursion"))
@@ -753,6 +885,7 @@ def walk(node, fn):
 
 def features(prog):
     fs = set()
+    by_name = {f["name"]: f for f in prog["funcs"]}
 
     def visit(n):
         k = n[0]
@@ -807,11 +940,41 @@ def features(prog):
                 fs.add("narrow_arith")
         elif k == "const" and len(n) == 3:
             fs.add("const")
+        elif k == "sizeof" and len(n) == 3:
+            fs.add("sizeof")
         elif k == "decl" and len(n) == 4 and not is_scalar(n[2]):
             fs.add("local_" + n[2][0])
 
     for f in prog["funcs"]:
         walk(f["body"], visit)
+
+        def rec(n, f=f):
+            if n[0] in ("call", "callstmt") and f["name"] in n[1:3]:
+                fs.add("recursion")
+            if n[0] in ("and", "or") and len(n) == 4:
+                for x in n[2:]:
+                    if isinstance(x, list) and x and x[0] == "not":
+                        x = x[2]
+                    if isinstance(x, list) and x and x[0] == "call" and not by_name[x[2]]["pure"]:
+                        fs.add("impure_call_in_condition")
+                a, b = n[2], n[3]
+                if isinstance(a, list) and a[0] == "cmp" and isinstance(b, list) and b[0] == "cmp" and isinstance(b[3], list) \
+                        and b[3][0] == "bin" and b[3][2] in ("/", "%") and b[3][4] == a[3]:
+                    fs.add("short_circuit_guard")
+
+        walk(f["body"], rec)
+    for c in prog["consts"]:
+        if kexpr_ops(c["val"]):
+            fs.add("const_expression")
+    if constant_divmod(prog):
+        fs.add("const_divmod")
+    if bool_global_init(prog):
+        fs.add("global_bool_init")
+    if prog.get("typedefs"):
+        fs.add("typedef")
+    for sd in prog["structs"]:
+        if any(not is_scalar(ft) for _, ft in sd["fields"]):
+            fs.add("nested_aggregate")
     return fs
 
 
@@ -835,7 +998,8 @@ def count_nodes(prog):
 
 
 class Profile:
-    def __init__(self, max_funcs=4, max_stmts=5, expr_depth=3, block_depth=3, max_vectors=4, exclude=()):
+    def __init__(self, max_funcs=4, max_stmts=5, expr_depth=3, block_depth=3, max_vectors=4, max_nest=7, exclude=()):
+        self.max_nest = max_nest
         self.max_funcs = max_funcs
         self.max_stmts = max_stmts
         self.expr_depth = expr_depth
@@ -870,6 +1034,7 @@ class _Gen:
         self.scopes = []
         self.fn = None  # function being generated
         self.loop_depth = 0
+        self.nest = 0
 
     # -- draws ---------------------------------------------------------------
     def pick(self, seq):
@@ -953,44 +1118,32 @@ class _Gen:
     def writable_root(self, root):
         return not (self.fn["pure"] and root != "local")
 
+    def inside(self, base, ty, want, out, depth=0):
+        """thunks for every sub-object of type `want` inside the object that the thunk `base` designates"""
+        if ty == want:
+            out.append(base)
+            return
+        k = kind(ty)
+        if k == "struct":
+            for fn_, ft in struct_of(self.prog, ty[1])["fields"]:
+                self.inside(lambda base=base, fn_=fn_, ft=ft: ["fld", ft, base(), fn_], ft, want, out, depth + 1)
+        elif k == "arr":
+            et, n = ty[1], ty[2]
+            self.inside(lambda base=base, et=et, n=n: ["idx", et, base(), self.index(n)], et, want, out, depth + 1)
+
     def places(self, t, write):
         """Thunks producing an LVAL of scalar/struct type t from the visible variables."""
         out = []
         for v in self.visible():
             vt = v.ty
-            k = kind(vt)
-            if k == "ptr":
-                root = v.target_root
-                if write and not self.writable_root(root):
+            if kind(vt) == "ptr":
+                if write and not self.writable_root(v.target_root):
                     continue
-                pt = vt[1]
-                base = ["deref", pt, ["var", vt, v.name]]
-                if pt == t:
-                    out.append(lambda base=base: base)
-                elif kind(pt) == "struct":
-                    for fn_, ft in struct_of(self.prog, pt[1])["fields"]:
-                        if ft == t:
-                            out.append(lambda base=base, fn_=fn_, ft=ft: ["fld", ft, base, fn_])
+                self.inside(lambda vt=vt, v=v: ["deref", vt[1], ["var", vt, v.name]], vt[1], t, out)
                 continue
             if write and (v.ro or not self.writable_root(v.root)):
                 continue
-            base = ["var", vt, v.name]
-            if vt == t:
-                out.append(lambda base=base: base)
-            elif k == "struct":
-                for fn_, ft in struct_of(self.prog, vt[1])["fields"]:
-                    if ft == t:
-                        out.append(lambda base=base, fn_=fn_, ft=ft: ["fld", ft, base, fn_])
-            elif k == "arr":
-                et, n = vt[1], vt[2]
-                if et == t:
-                    out.append(lambda base=base, et=et, n=n: ["idx", et, base, self.index(n)])
-                elif kind(et) == "struct":
-                    for fn_, ft in struct_of(self.prog, et[1])["fields"]:
-                        if ft == t:
-                            out.append(
-                                lambda base=base, et=et, n=n, fn_=fn_, ft=ft: ["fld", ft, ["idx", et, base, self.index(n)], fn_]
-                            )
+            self.inside(lambda vt=vt, v=v: ["var", vt, v.name], vt, t, out)
         return out
 
     def place_root(self, lv):
@@ -1007,9 +1160,15 @@ class _Gen:
         raise KeyError(name)
 
     def index(self, n):
-        if n == 1 or self.chance(1, 2):
+        # the C3 type checker re-checks an operand after coercing it (typechecker.do_coerce), so its running time
+        # doubles with every nesting level of binary operators, indices and arguments: nesting is bounded
+        if n == 1 or self.nest + 2 >= self.prof.max_nest or self.chance(1, 2):
             return ["lit", "i32", self.integer(0, n - 1)]
-        e = self.expr("i32", 1)
+        self.nest += 2
+        try:
+            e = self.expr("i32", 1)
+        finally:
+            self.nest -= 2
         if n & (n - 1) == 0:
             return ["bin", "i32", "&", e, ["lit", "i32", n - 1]]
         return ["cast", "i32", ["bin", "u32", "%", ["cast", "u32", e, False], ["lit", "u32", n]], False]
@@ -1029,6 +1188,9 @@ class _Gen:
         cs = [c for c in self.prog["consts"] if c["ty"] == t]
         if cs:
             opts.append((1, "const"))
+        if t == "i32" and self.chance(1, 300):
+            st_ = self.scalar_type()
+            return ["sizeof", "i32", self.wpick([(3, st_), (1, ["ptr", st_]), (1, ["arr", st_, self.integer(1, 5)])])]
         how = self.wpick(opts)
         if how == "place":
             return self.pick(pl)()
@@ -1058,8 +1220,15 @@ class _Gen:
         return self.expr(t, d)
 
     def expr(self, t, d):
-        if t == "bool":
-            return self.bexpr(d)
+        self.nest += 1
+        try:
+            if self.nest >= self.prof.max_nest:
+                d = 0
+            return self.bexpr(d) if t == "bool" else self.iexpr(t, d)
+        finally:
+            self.nest -= 1
+
+    def iexpr(self, t, d):
         if d <= 0:
             return self.leaf(t)
         opts = [(3, "leaf"), (6, "bin"), (1, "un"), (2, "cast")]
@@ -1101,6 +1270,13 @@ class _Gen:
         return ["bin", t, op, a, b]
 
     def bexpr(self, d):
+        self.nest += 1
+        try:
+            return self.bexpr1(d if self.nest < self.prof.max_nest else 0)
+        finally:
+            self.nest -= 1
+
+    def bexpr1(self, d):
         if d <= 0:
             opts = [(1, "lit")]
             pl = self.places("bool", False)
@@ -1109,12 +1285,21 @@ class _Gen:
             if self.wpick(opts) == "place":
                 return self.pick(pl)()
             return self.lit("bool")
-        opts = [(8, "cmp"), (2, "and"), (2, "or"), (2, "not"), (2, "leaf")]
+        opts = [(8, "cmp"), (2, "and"), (2, "or"), (2, "not"), (2, "leaf"), (2, "guard")]
         if self.pure_callees("bool"):
             opts.append((2, "call"))
         how = self.wpick(opts)
         if how == "leaf":
             return self.bexpr(0)
+        if how == "guard":
+            # only short-circuit evaluation keeps the division away from a zero divisor
+            t = self.wpick([(3, "i32"), (2, "u8"), (1, "i8"), (1, "i16"), (1, "u16"), (1, "u32"), (1, "i64"), (1, "u64")])
+            y = self.leaf(t)
+            div = ["bin", t, self.pick(["/", "%"]), self.expr(t, d - 1), y]
+            c = ["cmp", "bool", self.pick(CMPS), div, self.leaf(t)]
+            if self.chance(1, 2):
+                return ["and", "bool", ["cmp", "bool", "!=", y, ["lit", t, 0]], c]
+            return ["or", "bool", ["cmp", "bool", "==", y, ["lit", t, 0]], c]
         if how == "call":
             f = self.pick(self.pure_callees("bool"))
             return ["call", "bool", f["name"], self.call_args(f)]
@@ -1126,6 +1311,28 @@ class _Gen:
             return ["cmp", "bool", self.pick(["==", "!="]), self.bexpr(d - 1), self.bexpr(d - 1)]
         t = self.wpick([(3, "i32"), (2, "u8"), (1, "i8"), (1, "i16"), (1, "u16"), (1, "u32"), (1, "i64"), (1, "u64")])
         return ["cmp", "bool", self.pick(CMPS), self.expr(t, d - 1), self.expr(t, d - 1)]
+
+    def cond(self, d):
+        """condition of an if: sometimes with a call to an impure bool function as an operand of and/or/not, whose
+        execution (or not) is visible in the globals"""
+        f = self.fn
+        cands = [g for g in self.prog["funcs"] if not g["pure"] and g["ret"] == "bool"]
+        if f["pure"] or not cands or self.chance(1, 4):
+            return self.bexpr(d)
+        g = self.pick(cands)
+        args = self.call_args(g)
+        if any(a is None for a in args):
+            return self.bexpr(d)
+        call = ["call", "bool", g["name"], args]
+        if self.chance(1, 3):
+            call = ["not", "bool", call]
+        other = self.bexpr(d - 1)
+        form = self.integer(0, 4)
+        if form == 0:
+            return call
+        if form in (1, 2):
+            return ["and" if form == 1 else "or", "bool", other, call]
+        return ["and" if form == 3 else "or", "bool", call, other]
 
     def pointer_to(self, t, need_write=False):
         """EXPR of type ptr(t): an existing pointer variable or the address of a place"""
@@ -1173,6 +1380,8 @@ class _Gen:
         opts += [(1, "decl_agg"), (1, "decl_ptr")]
         if not f["pure"] and any(not g["pure"] for g in self.prog["funcs"]):
             opts.append((3, "impure_call"))
+            if d > 0 and any(not g["pure"] and g["ret"] == "bool" for g in self.prog["funcs"]):
+                opts.append((3, "if"))
         how = self.wpick(opts)
         ed = self.prof.expr_depth
         if how in ("assign", "compound"):
@@ -1197,15 +1406,12 @@ class _Gen:
         if how == "decl_agg":
             name = self.fresh("a")
             if self.prog["structs"] and self.chance(1, 2):
-                sd = self.pick(self.prog["structs"])
-                t = ["struct", sd["name"]]
-                init = [self.coerced(ft, 1) for _, ft in sd["fields"]]
+                t = ["struct", self.pick(self.prog["structs"])["name"]]
             else:
-                et = self.scalar_type()
-                n = self.integer(1, 4)
-                t = ["arr", et, n]
-                init = [self.coerced(et, 1) for _ in range(n)]
-            s = ["decl", name, t, init]
+                t = self.arr_type(self.scalar_type(), 4)
+                if self.chance(1, 5):
+                    t = ["arr", ["arr", t[1], self.integer(1, 2)], self.integer(1, 3)]
+            s = ["decl", name, t, self.agg_init(t)]
             self.declare(_Var(name, t, "local"))
             return [s]
         if how == "decl_ptr":
@@ -1225,7 +1431,7 @@ class _Gen:
             self.declare(_Var(name, ["ptr", t], "local", ro=True, target_root=root))
             return [s]
         if how == "if":
-            c = self.bexpr(ed)
+            c = self.cond(ed)
             a = self.block(d - 1, self.prof.max_stmts - 1)
             b = self.block(d - 1, self.prof.max_stmts - 1) if self.chance(1, 2) else []
             return [["if", c, a, b]]
@@ -1239,11 +1445,13 @@ class _Gen:
             ncase = self.integer(1, 4)
             vals = []
             pool = list(range(0, 9)) + [c["name"] for c in self.prog["consts"] if c["ty"] == "i32"]
-            cvals = {c["name"]: c["val"] for c in self.prog["consts"]}
+            cvals = const_values(self.prog)
             seen = set()
             for _ in range(ncase):
                 v = self.pick(pool)
-                num = cvals[v] if isinstance(v, str) else v
+                if self.chance(1, 6):
+                    v = self.kexpr("i32", 1)
+                num = kexpr_value(label_kexpr(v), cvals)
                 if num in seen:
                     continue
                 seen.add(num)
@@ -1300,6 +1508,29 @@ class _Gen:
             return [["decl", name, g["ret"], call]]
         raise ValueError(how)
 
+    def function_tail(self):
+        if self.fn["ret"] != "void" and self.chance(1, 6):
+            # no trailing return: the function ends in an if/else whose arms both return
+            c = self.bexpr(self.prof.expr_depth - 1)
+            a = self.block(0, 2, tail=lambda: [self.ret_stmt()])
+            b = self.block(0, 2, tail=lambda: [self.ret_stmt()])
+            return [["if", c, a, b]]
+        return [self.ret_stmt()]
+
+    def arr_type(self, et, nmax):
+        n = self.integer(1, nmax)
+        names = [k for k, v in sorted(const_values(self.prog).items()) if v == n]
+        if names and self.chance(1, 2):
+            return ["arr", et, n, self.pick(names)]
+        return ["arr", et, n]
+
+    def agg_init(self, t):
+        if kind(t) == "arr":
+            return [self.agg_init(t[1]) for _ in range(t[2])]
+        if kind(t) == "struct":
+            return [self.agg_init(ft) for _, ft in struct_of(self.prog, t[1])["fields"]]
+        return self.coerced(t, 1)
+
     def ret_stmt(self):
         f = self.fn
         if f["ret"] == "void":
@@ -1310,12 +1541,34 @@ class _Gen:
     def program(self):
         p = self.prog
         p["alias"] = {"i32": self.pick(["int", "int", "int32_t"]), "u8": self.pick(["byte", "byte", "uint8_t"])}
+        p["typedefs"] = []
         for i in range(self.integer(0, 2)):
-            nf = self.integer(1, 4)
-            p["structs"].append({"name": "S%d" % i, "fields": [["m%d" % j, self.scalar_type()] for j in range(nf)]})
-        for i in range(self.integer(0, 2)):
+            t = self.scalar_type()
+            if t not in [x[1] for x in p["typedefs"]]:
+                p["typedefs"].append(["T%d" % i, t])
+                p["alias"][t] = "T%d" % i
+        contains = {}  # struct name -> names of the struct types inside it (itself included)
+        for i in range(self.integer(0, 3)):
+            fields = []
+            used = {"S%d" % i}
+            for j in range(self.integer(1, 4)):
+                how = self.wpick([(6, "scalar"), (1, "arr"), (1, "struct")])
+                # ppci rejects a struct that contains the same struct type twice ("Recursive data type", see
+                # notes/C37.md): such programs would only be discards, so they are not generated
+                free = [sd["name"] for sd in p["structs"] if not (contains[sd["name"]] & used)]
+                if how == "struct" and free:
+                    ft = ["struct", self.pick(free)]
+                    used |= contains[ft[1]]
+                elif how == "arr":
+                    ft = ["arr", self.scalar_type(), self.integer(1, 3)]
+                else:
+                    ft = self.scalar_type()
+                fields.append(["m%d" % j, ft])
+            p["structs"].append({"name": "S%d" % i, "fields": fields})
+            contains["S%d" % i] = used
+        for i in range(self.integer(0, 3)):
             t = self.pick(["i32", "i32", "u8"])
-            p["consts"].append({"name": "K%d" % i, "ty": t, "val": self.integer(0, 12) if t == "i32" else self.integer(0, 255)})
+            p["consts"].append({"name": "K%d" % i, "ty": t, "val": self.kexpr(t, 2)})
         for i in range(self.integer(1, 5)):
             name = "g%d" % i
             how = self.wpick([(4, "scalar"), (2, "arr"), (1, "struct"), (1, "arrstruct")])
@@ -1324,17 +1577,23 @@ class _Gen:
             if how == "scalar":
                 t = self.scalar_type()
             elif how == "arr":
-                t = ["arr", self.scalar_type(), self.integer(1, 5)]
+                t = self.arr_type(self.scalar_type(), 5)
+                if self.chance(1, 4):
+                    t = ["arr", ["arr", t[1], self.integer(1, 3)], self.integer(1, 3)]
             elif how == "struct":
                 t = ["struct", self.pick(p["structs"])["name"]]
             else:
                 t = ["arr", ["struct", self.pick(p["structs"])["name"]], self.integer(1, 3)]
             lv = leaves(p, t)
             init = None
+            if t == "bool" and self.chance(1, 2) and not self.excl("global_bool_init"):
+                init = [["b", self.integer(0, 1)]]
             # C3 global initialisers are constant expressions; the front end evaluates them for int and byte only
             if all(lt in ("i32", "u8") for _, lt in lv) and self.chance(2, 3) and not self.excl("global_init"):
-                vals = [self.integer(0, 255) if lt == "u8" else self.pick(BOUNDARY) for _, lt in lv]
-                init = vals[0] if is_scalar(t) else vals
+                init = [self.integer(0, 255) if lt == "u8" else self.pick(BOUNDARY) for _, lt in lv]
+                for j in range(len(init)):
+                    if self.chance(1, 5):
+                        init[j] = self.kexpr("i32", 2)
             p["globals"].append({"name": name, "ty": t, "init": init})
             self.gvars.append(_Var(name, t, "global"))
         nf = self.integer(1, self.prof.max_funcs)
@@ -1351,17 +1610,56 @@ class _Gen:
                 else:
                     params.append(["a%d_%d" % (i, j), self.scalar_type()])
             ret = self.scalar_type()
-            if not pure and self.chance(1, 5):
-                ret = "void"
+            if not pure:
+                how = self.integer(0, 9)
+                ret = "void" if how < 2 else "bool" if how < 5 else ret
             f = {"name": "f%d" % i, "ret": ret, "params": params, "pure": pure, "body": None}
+            recursive = self.chance(1, 5)
+            if recursive:
+                params.insert(0, ["n%d" % i, "i32"])
             self.fn = f
             self.scopes = [[]]
             for n, t in params:
-                self.scopes[0].append(_Var(n, t, "local", ro=kind(t) == "ptr", target_root="global" if kind(t) == "ptr" else None))
+                ro = kind(t) == "ptr" or (recursive and n == "n%d" % i)
+                self.scopes[0].append(_Var(n, t, "local", ro=ro, target_root="global" if kind(t) == "ptr" else None))
             self.loop_depth = 0
-            f["body"] = self.block(self.prof.block_depth, self.prof.max_stmts, tail=lambda: [self.ret_stmt()])
+            rec = self.recursion(f) if recursive else None
+            f["body"] = self.block(self.prof.block_depth, self.prof.max_stmts, tail=self.function_tail)
+            if rec is not None:
+                f["body"].insert(self.integer(0, min(2, len(f["body"]) - 1)), rec)
             p["funcs"].append(f)
         return p
+
+    def kexpr(self, t, d):
+        """constant expression with a small value (usable as a case label); the divisor is never zero"""
+        vals = const_values(self.prog)
+        if d <= 0 or self.chance(1, 3):
+            if vals and self.chance(1, 3):
+                return ["k", self.pick(sorted(vals))]
+            return self.integer(0, 12) if t == "i32" or d < 2 else self.integer(0, 255)
+        ops = ["+", "-", "*"]
+        if not self.excl("const_divmod"):
+            ops += ["/", "%", "/", "%"]
+        op = self.pick(ops)
+        a = self.kexpr(t, d - 1)
+        b = self.kexpr(t, d - 1)
+        if op in ("/", "%") and kexpr_value(b, vals) == 0:
+            b = self.integer(1, 9)
+        return ["kbin", op, a, b]
+
+    def recursion(self, f):
+        """`if (0 < n and n <= K) { return f(n - 1, ...); }` on the read-only first parameter: depth at most K"""
+        nv = ["var", "i32", f["params"][0][0]]
+        args = [["bin", "i32", "-", nv, ["lit", "i32", 1]]]
+        for _, pt in f["params"][1:]:
+            a = self.pointer_to(pt[1], need_write=True) if kind(pt) == "ptr" else self.coerced(pt, 1)
+            if a is None:
+                return None
+            args.append(a)
+        guard = ["and", "bool", ["cmp", "bool", ">", nv, ["lit", "i32", 0]], ["cmp", "bool", "<=", nv, ["lit", "i32", self.integer(1, 5)]]]
+        if f["ret"] == "void":
+            return ["if", guard, [["callstmt", f["name"], args]], []]
+        return ["if", guard, [["ret", ["call", f["ret"], f["name"], args]]], []]
 
     def calls(self):
         out = []
